@@ -290,30 +290,88 @@ def flatten_contract(text):
     return '\n'.join(out)
 
 
+_ESC = {'n': 10, 'r': 13, 't': 9, '\\': 92, '0': 0, "'": 39, '"': 34}
+
+
+def decode_byte_literal(body):
+    """Bytes of a Rust byte-string literal body (between the quotes). Unsupported escapes -> LostAnchor."""
+    out, i = [], 0
+    while i < len(body):
+        c = body[i]
+        if c != '\\':
+            if ord(c) > 127 or c in '\r\n':
+                raise LostAnchor(f'byte-string literal with a raw non-ASCII / newline character: b"{body}"')
+            out.append(ord(c))
+            i += 1
+            continue
+        e = body[i + 1] if i + 1 < len(body) else ''
+        if e in _ESC:
+            out.append(_ESC[e])
+            i += 2
+        elif e == 'x' and re.match(r'[0-9a-fA-F]{2}', body[i + 2:i + 4]):
+            out.append(int(body[i + 2:i + 4], 16))
+            i += 4
+        else:
+            raise LostAnchor(f'byte-string literal with an escape the extractor does not decode: b"{body}"')
+    return out
+
+
+def byte_literals(em, text, qual):
+    """R15: every byte-string literal b"..." of the function is replaced by a call of a generated constant
+    function whose contract spells out the literal's bytes (decoded here, mechanically): Verus accepts the literal
+    but knows nothing about its contents.  `*b"..."` (array by value) and `b"..."` (coerced to a slice) get
+    different wrappers.  The wrapper's body is the literal itself."""
+    seen = em.__dict__.setdefault('bytelit_fns', {})
+
+    def repl(m):
+        star, body = m.group(1), m.group(2)
+        bs = decode_byte_literal(body)
+        key = ('arr' if star else 'lit', body)
+        if key not in seen:
+            name = ('barr_' if star else 'blit_') + ''.join('%02x' % b for b in bs)[:40] + '_%d' % len(bs)
+            seen[key] = name
+            elems = ', '.join((('%du8' % b) if k == 0 else str(b)) for k, b in enumerate(bs))
+            view = f'seq![{elems}]' if bs else 'Seq::<u8>::empty()'
+            if star:
+                em.emit(f'#[verifier::external_body]\npub fn {name}() -> (r: [u8; {len(bs)}])\n    ensures r@ == {view},\n{{ *b"{body}" }}', kind='item')
+            else:
+                em.emit(f'#[verifier::external_body]\npub fn {name}() -> (r: &\'static [u8])\n    ensures r@ == {view},\n{{ b"{body}" }}', kind='item')
+            em.rewrite_counts['R15'] = em.rewrite_counts.get('R15', 0)
+        em.rewrite_counts['R15'] = em.rewrite_counts.get('R15', 0) + 1
+        return seen[key] + '()'
+
+    text = re.sub(r'(?<![A-Za-z0-9_])(\*\s*)?b"((?:[^"\\]|\\.)*)"', repl, text)
+    # a constant item inside the body initialised by such a literal becomes a let (its initialiser is now a call)
+    b = text.find('{')
+    return text[:b] + re.sub(r'\bconst\s+(\w+)\s*:', r'let \1:', text[b:])
+
+
 def build_fn(em, src, span, qual, subs, retname='r', declared_only=False):
     """Emit function text = signature (+ named return) + contract + body with splices."""
     text = src.text[span[0]:span[1]]
     text = rsscan.strip_comments(text)
     # item-specific declared substitutions first (they operate on the original, comment-stripped text)
     for d in subs.get('sub', []):
-        m = re.match(r'(\d+|all)\s+(.*?)\s+==>\s*(.*)$', d.arg, re.S)
+        m = re.match(r'(\d+|all|any)\s+(.*?)\s+==>\s*(.*)$', d.arg, re.S)
         if not m:
             raise SystemExit(f'bad @@sub at line {d.lineno}')
         k, old, new = m.group(1), m.group(2), m.group(3)
         if d.payload:
             new = (new + '\n' + '\n'.join(d.payload)).strip('\n')
-        if k == 'all':
+        if k in ('all', 'any'):
             n = 0
+            pos = 0
             while True:
                 try:
-                    s, e, _ = find_nth(None, text, old, 1, qual)
+                    s, e, _ = find_nth(None, text[pos:], old, 1, qual)
                 except LostAnchor:
                     break
-                text = text[:s] + new + text[e:]
+                text = text[:pos + s] + new + text[pos + e:]
+                pos = pos + s + len(new)
                 n += 1
                 if n > 50:
                     raise SystemExit('runaway @@sub all')
-            if n == 0:
+            if n == 0 and k == 'all':
                 raise LostAnchor(f'{qual}: @@sub anchor `{old}` not found')
             em.sub_counts.append({'fn': qual, 'old': old, 'count': n})
         else:
@@ -321,6 +379,8 @@ def build_fn(em, src, span, qual, subs, retname='r', declared_only=False):
             text = text[:s] + new + text[e:]
             em.sub_counts.append({'fn': qual, 'old': old, 'count': 1})
 
+    if 'bytelits' in subs:
+        text = byte_literals(em, text, qual)
     text, counts = rewrites.apply_all(text)
     for k, v in counts.items():
         em.rewrite_counts[k] = em.rewrite_counts.get(k, 0) + v
@@ -398,7 +458,7 @@ def generate(unit_path):
 
     def collect_subs(j):
         subs = {}
-        while j < len(ds) and ds[j].name in ('contract', 'contractfile', 'loop', 'hint', 'sub', 'retname', 'attr'):
+        while j < len(ds) and ds[j].name in ('contract', 'contractfile', 'loop', 'hint', 'sub', 'retname', 'attr', 'bytelits'):
             d = ds[j]
             if d.name == 'contractfile':
                 # contract text shared between units (e.g. a function assumed in one unit and verified in another)
